@@ -34,6 +34,12 @@ func ParseTime(value string) (Time, error) {
 	value = strings.TrimPrefix(value, "@T")
 	for _, l := range timeLayouts {
 		if t, err = time.Parse(l, value); err == nil {
+			// time.Parse accepts a fraction after the seconds even when the layout
+			// has none ("10:00:00.5"); keep it visible at millisecond precision
+			// instead of hiding it behind the second-precision layout.
+			if l == secondLayout && t.Nanosecond() != 0 {
+				return Time{t.Truncate(time.Millisecond), millisecondLayout}, nil
+			}
 			return Time{t, layout(l)}, nil
 		}
 	}
